@@ -100,6 +100,7 @@ void generate(sim::Rng &r, uint64_t seed, const std::string &tier, sim::Plan &p)
       p.ops.push_back(op);
     }
   }
+  if (r.chance(300)) p.cfg["final_stops_root"] = 1;     // drawn last: older seeds keep their plans
   p.sched.strategy = "none";
 }
 
@@ -303,6 +304,7 @@ struct Ref {
 };
 
 struct World {
+  bool final_stops_root = false, in_outer_stop = false;
   Tree tree, fresh;
   Run run1, run2, runf;
   Run *cur = nullptr;
@@ -341,6 +343,13 @@ void hook_root(Tree &T, Run &run, int my_run) {
     if (&run == W.cur) { ++W.root_blocks; if (W.stopped) sim::violation("C17/block-after-stop", "a block notification was delivered after stop() had returned"); }
   });
   if (auto *as = dynamic_cast<AssembleAction *>(root)) as->setFinalCallback([&run] { run.ev.push_back(Ev{3, 0, 0, 0}); if (&run == W.cur) ++W.finals; });
+  // cfg final_stops_root: while the root is being stopped from outside, the final hook of every inner composite stops the root as well
+  // (an application that tears the whole flow down when a part of it ends).  The root is being stopped already: the nested call has nothing
+  // left to do, and the root's own final hook still runs once.
+  if (W.final_stops_root)
+    for (size_t i = 1; i < T.nodes.size(); ++i)
+      if (auto *as = dynamic_cast<AssembleAction *>(T.nodes[i]))
+        as->setFinalCallback([root] { if (W.in_outer_stop) { sim::probe("stop_reentered_from_final_hook"); root->stop(); } });
 }
 
 void check_nothing_underway(Tree &T, const char *when) {
@@ -359,6 +368,7 @@ void execute(const sim::Plan &plan) {
   sim::set_deadlock_handler([](const sim::DeadlockInfo &info) { sim::violation("C17/loop-never-wakes", "the loop blocks for ever before the end of the plan: " + info.summary); });
   sim::set_stepcap_handler([] { sim::violation("C17/livelock", "the action tree spins without progress (step cap)"); });
   World world; Wp = &world;
+  W.final_stops_root = plan.get("final_stops_root") != 0;
   std::vector<Spec> spec;
   for (const sim::Op &op : plan.ops) {
     if (op.kind != "node" || spec.size() >= 16) continue;
@@ -406,7 +416,7 @@ void execute(const sim::Plan &plan) {
     if (c < 3 && W.second_run) W.disturbed2 = true;
     if (c == 0) { if (root->isRunning()) { root->pause(); W.paused = true; } }
     else if (c == 1) { if (root->state() == Action::State::kPause) { root->resume(); W.paused = false; } }
-    else if (c == 2) { if (root->isUnderway()) { root->stop(); W.stopped = true; check_nothing_underway(W.tree, "right after stop()"); } }
+    else if (c == 2) { if (root->isUnderway()) { W.in_outer_stop = true; root->stop(); W.in_outer_stop = false; W.stopped = true; check_nothing_underway(W.tree, "right after stop()"); } }
     else if (!W.second_run && W.started && (c == 4 || !root->isUnderway()) && root->state() != Action::State::kIdle) {
       if (root->isUnderway()) sim::probe("resets_while_underway");   // also in the window between finish() and the delivery of its notification
       // reset and run again: must behave like a freshly built tree
